@@ -1,4 +1,4 @@
-use crate::nodes::{Block, DoStatement, Expression, IfExpression, IfStatement, Statement};
+use crate::nodes::{Block, DoStatement, Expression, IfExpression, IfStatement, Statement, Token};
 use crate::process::{DefaultVisitor, Evaluator, NodeProcessor, NodeVisitor};
 use crate::rules::{
     Context, FlawlessRule, RuleConfiguration, RuleConfigurationError, RuleMetadata, RuleProperties,
@@ -164,6 +164,14 @@ impl IfFilter {
                 });
 
                 if !keep_next_branches {
+                    if replace_else_with.is_some() {
+                        // the original `else` keyword comes after the result that replaces
+                        // the else result: a new keyword has to be written before it
+                        if let Some(mut tokens) = if_expression.get_tokens().cloned() {
+                            tokens.r#else = Token::from_content("else");
+                            if_expression.set_tokens(tokens);
+                        }
+                    }
                     *if_expression.mutate_else_result() =
                         replace_else_with.unwrap_or_else(Self::result_placeholder);
                 }
